@@ -17,7 +17,8 @@
 (* Design model: bfg9000's forwarding + keep-first de-duplication, followed by an  *)
 (* ENVIRONMENT MODEL of a single-pass archive linker.                             *)
 EXTENDS Naturals, Sequences, FiniteSets, TLC, Json
-CONSTANT N
+CONSTANTS N,
+          KeepFirst    \* TRUE: duplicates keep their first position (the pinned tree); FALSE: their last (repaired)
 Libs == 1..N
 ToSet(s) == { s[i] : i \in 1..Len(s) }
 RECURSIVE Uniq(_, _)
@@ -36,7 +37,10 @@ RECURSIVE Fwd(_, _, _), FwdAll(_, _, _)
 Fwd(kind, deps, i) == IF kind[i] # "static" THEN <<>> ELSE deps[i] \o FwdAll(kind, deps, deps[i])
 FwdAll(kind, deps, s) == IF s = <<>> THEN <<>> ELSE Fwd(kind, deps, Head(s)) \o FwdAll(kind, deps, Tail(s))
 \* libs of a final link = listed libs followed by everything they forward, first occurrence kept
-LinkLine(kind, deps, listed) == Uniq(listed \o FwdAll(kind, deps, listed), {})
+Rev(s) == [i \in 1..Len(s) |-> s[Len(s) + 1 - i]]
+LinkLine(kind, deps, listed) ==
+  LET all == listed \o FwdAll(kind, deps, listed) IN
+  IF KeepFirst THEN Uniq(all, {}) ELSE Rev(Uniq(Rev(all), {}))
 
 \* ---- environment model: single-pass linker ---------------------------------------
 \* symbols: <<"f", i>>, <<"g", i>>.  State: undefined, defined.
